@@ -54,6 +54,7 @@ static void x_handler(uint8_t *data, size_t *data_size);
 static int code_of(unsigned char b);
 #define CODESET(b) ((cat_return_state)code_of(b))
 
+#define NO_OUTLOG   /* this harness never looks at the raw output log */
 #include "world.h"
 
 static int terminal_for_kind(int c)
